@@ -29,7 +29,7 @@ def run(ctx):
     rendered = 0
     elems = 0
     for i in range(n):
-        ast = [talgen.gen(rnd) for _ in range(rnd.randint(1, 3))]
+        ast = talgen.FIXED[i] if i < len(talgen.FIXED) else [talgen.gen(rnd) for _ in range(rnd.randint(1, 3))]
         tpl = "".join(talgen.ser(x) for x in ast)
         g = talgen.ctxvals()
         allow = rnd.random() < 0.2
